@@ -173,7 +173,8 @@ PROPS = {
     },
     'C20': {
         'id': 'C20', 'area': ['chn', 'zip'],
-        'theorems': ['Props.C20_chain_refines', 'Props.C20_read_progress', 'Props.C20_extract_confined', 'Props.C20_extract_sound', 'Props.C20_extract_exact'],
+        'theorems': ['Props.C20_chain_refines', 'Props.C20_read_progress', 'Props.C20_extract_confined', 'Props.C20_extract_sound', 'Props.C20_extract_exact',
+                     'Props.C20_land_faithful', 'Props.C20_land_all'],
         'n_quick': [5000, 1500], 'n_thorough': [200000, 60000],
     },
     'C04': {
